@@ -29,11 +29,18 @@ var apiTexts = map[string]string{
 	"badvalue": "{\n  \"a\": 1 // {min: 2}\n}",
 	"usesT":    `{"r": @t, "s": [@t, @t]}`,
 	"typeT":    `"str" // {minLength: 1}`,
+	// contents whose OpenAPI conversion walks nested rule values (or rule-sets with format types, enum, allOf-free objects)
+	"orset":  `"2021-01-02T07:23:12+03:00" // {or: [{type: "datetime"}, {type: "integer", min: 1}, "email"]}`,
+	"rich":   "{ // {additionalProperties: \"string\"}\n  \"e\": \"x\", // {enum: [\"x\", 1, null]}\n  \"d\": \"2021-12-31\", // {type: \"date\", optional: true}\n  \"u\": [ // {minItems: 1}\n    \"550e8400-e29b-41d4-a716-446655440000\" // {type: \"uuid\"}\n  ],\n  \"c\": @t | @u\n}",
+	"typeU":  `12.5 // {type: "decimal", precision: 1, nullable: true}`,
 }
 
 func apiTypeName(content string) string {
 	if content == "typeT" {
 		return "@t"
+	}
+	if content == "typeU" {
+		return "@u"
 	}
 	return "@" + content
 }
@@ -183,6 +190,19 @@ func apiDefectSources(content string, regs []string) int {
 			n++
 		case "usesT":
 			if !hasT {
+				n++
+			}
+		case "rich":
+			if !hasT {
+				n++
+			}
+			hasU := false
+			for _, r := range regs {
+				if r == "typeU" {
+					hasU = true
+				}
+			}
+			if !hasU {
 				n++
 			}
 		}
